@@ -410,5 +410,9 @@ func init() {
 		})
 		// leg V (c04sets.go): the proved validator for the set-valued facts
 		c04RegisterSets(c)
+		// leg Bm (c03bm.go): the Boyer-Moore tables, Scan and IsMatch (a tenth of C03's cases)
+		c03RegisterBm(c, 10)
+		// leg L (c04loops.go): the proved validator for the landmark chain and the literal after the leading loop
+		c04RegisterLoops(c, 1)
 	})
 }
